@@ -9,7 +9,7 @@ func init() {
 			"Context.isPrivileged is assumed false when it steers slock/sunlock (the privilege is only granted while the write lock is held: rule PRIV-HELD)",
 			"objects are unshared while being constructed (accesses through a pointer freshly allocated in the same function are exempt)",
 		},
-		Rules: []ruleFn{ruleLocksetStates, ruleStateSections, ruleAtomSection, rulePrivPair, ruleCtxShare, ruleLockOrder("C12"), ruleSharedWrite, ruleCacheInv, ruleCacheEvict("C12"), ruleLockReentry("C12"), rulePrivLocal("C12"), ruleCtxPerGoroutine("C12"), ruleCacheGen("C12"), ruleMarshalPure("C12"), ruleHookAtomic, rulePurgeRecheck("C12")},
+		Rules: []ruleFn{ruleActionBindingsOwn("C12"), ruleLocksetStates, ruleStateSections, ruleAtomSection, rulePrivPair, ruleCtxShare, ruleLockOrder("C12"), ruleSharedWrite, ruleCacheInv, ruleCacheEvict("C12"), ruleLockReentry("C12"), rulePrivLocal("C12"), ruleCtxPerGoroutine("C12"), ruleCacheGen("C12"), ruleMarshalPure("C12"), ruleHookAtomic, rulePurgeRecheck("C12")},
 		Thorough: []ruleFn{ruleLocksetDeep},
 	})
 	register(&propertySpec{ID: "C11", Explain: "Static lock-set analysis of the state that different locations share (see rule docs); decides the data-race-freedom precondition of C11 only.", Rules: []ruleFn{ruleLocksetSystem, ruleCtxPerRequest, ruleAtomicOnly, ruleLockOrder("C11"), ruleAppendClobber("C11"), ruleTimelineOrder("C11"), rulePendingPair("C11"), ruleSharedToJS, ruleCtxPerGoroutine("C11"), ruleCronKeyInj("C11"), ruleMemoKey("C11")}})
